@@ -235,7 +235,13 @@ func CmdCheck(prop, tier string) int {
 			records = append(records, oblRecord{Name: k + "#vacuity:return", Verdict: "vacuous"})
 			reportFail(k+"#vacuity:return", "vacuity", "no returning path is satisfiable: assumptions contradictory", "", "", nil, nil)
 		}
-		rs := Discharge(fr, DischargeOpts{QuickTimeout: quickT, FullTimeout: fullT, Workers: 16, CrossCheck: cross, GetValues: paramLeafTerms(fr)})
+		knownOpen := map[string]bool{}
+		for _, kf := range known {
+			if kf.Property == prop && kf.Fixed == "" {
+				knownOpen[kf.Obligation] = true
+			}
+		}
+		rs := Discharge(fr, DischargeOpts{QuickTimeout: quickT, FullTimeout: fullT, Workers: 16, CrossCheck: cross, GetValues: paramLeafTerms(fr), KnownOpen: knownOpen})
 		for i := range rs {
 			r := &rs[i]
 			// a clause labelled [Cxx.name] belongs to property Cxx only (a function may serve several properties)
